@@ -295,6 +295,77 @@ def _distinctness_guard(ctx, f, loop, idx_lists: Set[str], rid):
     return None
 
 
+
+def _index_array_kind(ctx, f, e: ast.AST, depth: int = 0) -> Optional[str]:
+    """Provenance of an index expression: 'unique' — an array whose entries are distinct by construction (the values returned
+    by np.unique, arange / range), 'array' — some other index array (e.g. the inverse mapping of np.unique, np.where results),
+    None — not known to be an array (a scalar, a loop variable).  Looks through tuple unpacking of np.unique(..., return_*=True),
+    order-preserving wrappers (.ravel(), np.asarray, …), single aliases and — for a tuple returned by a private helper — the
+    corresponding element of the helper's return."""
+    if depth > 6 or e is None:
+        return None
+    if isinstance(e, ast.Tuple):
+        kinds = [_index_array_kind(ctx, f, x, depth + 1) for x in e.elts]
+        return "unique" if "unique" in kinds else ("array" if "array" in kinds else None)
+    if isinstance(e, ast.Call):
+        nm = call_name(e)
+        if isinstance(e.func, ast.Attribute) and nm in ("ravel", "flatten", "astype", "squeeze", "reshape", "copy", "tolist") \
+                and not isinstance(e.func.value, ast.Name) or (isinstance(e.func, ast.Attribute) and nm in ("ravel", "flatten", "astype", "squeeze", "reshape", "copy", "tolist")
+                                                              and not (ctx.repo.external_name(f.module, e.func) or "").startswith("numpy")):
+            return _index_array_kind(ctx, f, e.func.value, depth + 1)
+        if nm in ("asarray", "array", "list", "tuple", "ravel", "squeeze", "atleast_1d") and e.args:
+            return _index_array_kind(ctx, f, e.args[0], depth + 1) or ("array" if nm in ("asarray", "array") else None)
+        if nm in ("unique",):
+            return "unique" if not any(k.arg and k.arg.startswith("return_") for k in e.keywords) else None
+        if nm in ("arange", "range"):
+            return "unique"
+        if nm in ("where", "nonzero", "argwhere", "flatnonzero", "searchsorted", "digitize", "repeat", "tile"):
+            return "array"
+        return None
+    if isinstance(e, ast.Name) and isinstance(e.ctx, ast.Load):
+        defs = ctx.rd(f).defs_reaching(e)
+        kinds = []
+        for d in defs:
+            if isinstance(d, ast.arguments) or isinstance(d, (ast.For, ast.comprehension)):
+                kinds.append(None)
+                continue
+            v = assigned_value(d, e.id)
+            if v is not None:
+                kinds.append(_index_array_kind(ctx, f, v, depth + 1))
+                continue
+            k = None
+            if isinstance(d, ast.Assign) and len(d.targets) == 1 and isinstance(d.targets[0], (ast.Tuple, ast.List)) and isinstance(d.value, ast.Name):
+                # unpacking of a tuple held in a local (e.g. the result variable of a spliced-in helper)
+                pos = next((i for i, t in enumerate(d.targets[0].elts) if isinstance(t, ast.Name) and t.id == e.id), None)
+                tdefs = ctx.rd(f).defs_reaching(d.value)
+                tvals = [assigned_value(td, d.value.id) for td in tdefs]
+                if pos is not None and tvals and all(isinstance(tv, ast.Tuple) and len(tv.elts) == len(d.targets[0].elts) for tv in tvals):
+                    ks = [_index_array_kind(ctx, f, tv.elts[pos], depth + 1) for tv in tvals]
+                    k = "unique" if all(x == "unique" for x in ks) else ("array" if all(x in ("unique", "array") for x in ks) else None)
+            if isinstance(d, ast.Assign) and len(d.targets) == 1 and isinstance(d.targets[0], (ast.Tuple, ast.List)) and isinstance(d.value, ast.Call):
+                pos = next((i for i, t in enumerate(d.targets[0].elts) if isinstance(t, ast.Name) and t.id == e.id), None)
+                if pos is not None and call_name(d.value) == "unique" and any(k2.arg and k2.arg.startswith("return_") for k2 in d.value.keywords):
+                    k = "unique" if pos == 0 else "array"
+                elif pos is not None:
+                    try:
+                        targets, how = ctx.cg.resolve_call(f, d.value)
+                    except Exception:
+                        targets, how = [], ""
+                    if len(targets) == 1 and how != "by-name":
+                        g = targets[0]
+                        rets = [r for r in walk_shallow(g.node) if isinstance(r, ast.Return) and isinstance(r.value, ast.Tuple)
+                                and len(r.value.elts) == len(d.targets[0].elts)]
+                        ks = [_index_array_kind(ctx, g, r.value.elts[pos], depth + 1) for r in rets]
+                        k = ks[0] if ks and all(x == ks[0] for x in ks) else None
+            kinds.append(k)
+        if kinds and all(k == "unique" for k in kinds):
+            return "unique"
+        if kinds and all(k in ("unique", "array") for k in kinds):
+            return "array"
+        return None
+    return None
+
+
 def r2_accumulate_on_scatter(ctx, rid):
     n_zip_loops = 0
     for f in ctx.repo.all_functions([IR]):
@@ -361,7 +432,50 @@ def r2_accumulate_on_scatter(ctx, rid):
                                   f"taken from {sorted(derived)}; nothing guarantees those index tuples are distinct (parallel edges "
                                   f"between the same pair of variables are legal), so of several connections only the last weight "
                                   f"survives instead of their sum", facts)
-    ctx.notes.append(f"{rid}: {n_zip_loops} zip loops examined in {IR}")
+    # ---- vectorised scatter: a zeros array addressed through index ARRAYS in one statement (no per-edge loop)
+    n_fancy = 0
+    for f in ctx.repo.all_functions([IR]):
+        for st in [n for n in walk_shallow(f.node) if isinstance(n, (ast.Assign, ast.AugAssign, ast.Expr))]:
+            if isinstance(st, ast.Assign) and len(st.targets) == 1:
+                tgt, mode = st.targets[0], "store"
+            elif isinstance(st, ast.AugAssign):
+                tgt, mode = st.target, "aug"
+            elif isinstance(st, ast.Expr) and isinstance(st.value, ast.Call) and len(st.value.args) == 3 \
+                    and (ctx.repo.external_name(f.module, st.value.func) or "") in ("numpy.add.at", "numpy.subtract.at"):
+                tgt, mode = ast.Subscript(value=st.value.args[0], slice=st.value.args[1], ctx=ast.Store()), "at"
+            else:
+                continue
+            if not (isinstance(tgt, ast.Subscript) and isinstance(tgt.value, ast.Name)):
+                continue
+            if any(isinstance(a, ast.For) and _zip_targets(a) is not None for a in _anc(st)):
+                continue                # a per-edge store inside a zip loop: judged above
+            kind = _index_array_kind(ctx, f, tgt.slice)
+            if kind is None:
+                continue
+            arr = tgt.value.id
+            defs = ctx.rd(f).defs_reaching_at(stmt_of(ctx.cfg(f), st), arr)
+            vals = [assigned_value(d, arr) for d in defs]
+            if not (vals and all(isinstance(v, ast.Call) and call_name(v) in ZEROS
+                                 and (ctx.repo.external_name(f.module, v.func) or "").startswith("numpy.") for v in vals)):
+                continue
+            n_fancy += 1
+            facts = {"array": arr, "index": ast.unparse(tgt.slice), "index_provenance": kind}
+            if mode == "at":
+                ctx.ok(rid, f, st, f"`{norm(st)}` is an unbuffered scatter: entries addressed by several edges add up", facts)
+            elif kind == "unique":
+                ctx.ok(rid, f, st, f"the index arrays of `{norm(st)}` are distinct by construction (np.unique values / arange)", facts)
+            elif mode == "aug" and isinstance(st.op, (ast.Add, ast.Sub)):
+                ctx.violation(rid, f, st,
+                              f"`{norm(st)}` accumulates through index arrays: numpy evaluates a fancy-indexed augmented assignment as "
+                              f"`tmp = a[idx] {'+' if isinstance(st.op, ast.Add) else '-'} v; a[idx] = tmp`, so an (row, column) pair that occurs for several edges (parallel "
+                              f"edges are legal) receives only the last weight instead of the sum; np.add.at / a loop accumulate", facts)
+            elif mode == "store":
+                ctx.violation(rid, f, st,
+                              f"`{norm(st)}` overwrites `{arr}` (zeros) through index arrays that can address one element for several "
+                              f"edges: only the last weight survives instead of the sum", facts)
+            else:
+                raise AnalysisError(f"{rid}: {f.qual}: scatter `{norm(st)}` uses an augmented operator other than += / -=")
+    ctx.notes.append(f"{rid}: {n_zip_loops} zip loops examined in {IR}, {n_fancy} vectorised scatters")
     ctx.require(n_zip_loops >= 5, f"{rid}: only {n_zip_loops} loops over zip(...) found in {IR} (7 on the pinned tree)")
 
 
@@ -2356,7 +2470,7 @@ def _r10_sites(ctx, rid, f, indexers):
             if vals and len(vals) == len(defs) and all(isinstance(x, ast.Call) and call_name(x) in UNIQUE_CALLS | {"arange", "range"}
                                                         for x in vals):
                 return True
-            return False
+            return _index_array_kind(ctx, f, a) == "unique"     # np.unique(..., return_inverse=True)[0], helper returns, aliases
         # string-valued candidates (the *name* under which the index constant is stored) are not lists
         lists = [a for a in cands if not all(isinstance(assigned_value(d, a.id), (ast.Constant, ast.JoinedStr))
                                              for d in rd.defs_reaching(a) if not isinstance(d, ast.arguments))
